@@ -2,11 +2,27 @@
  * T-replay harness for /repo/src/iv_fd_pump.c.  The source file is included white-box with
  * read/write/splice/ioctl/shutdown redirected to scripted virtual versions, so every
  * partial count, EAGAIN, EINTR, EOF and error can be injected at any point, in both
- * transfer modes.  Writes a log (see /verif/lean/Ivy/Drv/Pump.lean) on stdout.
+ * transfer modes; malloc/free/pipe2/close are counted (and passed through), so the per-thread
+ * buffer cache is observable.  Writes a log (see /verif/lean/Ivy/Drv/Pump.lean) on stdout.
  *
- *   new <0|1|probe-ok|probe-fail> <relay 0|1>
- *   pump R <ev>... W <ev>... F <v>...      R: d<n> a i e x   W: n<k> a i x z   F: fionread values
- *   destroy
+ * Several pumps live at the same time on the one thread (slots 0..MAXSLOT-1):
+ *
+ *   new <slot> <0|1|probe-ok|probe-fail> <relay 0|1>      (old form "new <mode> <relay>" = slot 0)
+ *   pump <slot> R <ev>... W <ev>... F <v>...               R: d<n> a i e x   W: n<k> a i x z   F: fionread values
+ *   destroy <slot>                                         (old forms "pump R ..." / "destroy" = slot 0)
+ *   deinit-purge                                           the thread-deinit hook (buf_purge) without ending the run
+ *
+ * The buffer cache is NOT purged between pumps: what one pump leaves in the cache is what the next
+ * one gets.  Only when a `new` asks for another transfer mode than the current value of
+ * splice_available (cached buffers of the other kind would be a harness artefact) all live pumps are
+ * destroyed and the cache is purged first; this is logged (DESTROY.., PURGE, MODE).
+ *
+ * Every slot has its own source stream; byte values depend on the pump's serial number, so bytes of
+ * one stream showing up in another are visible in both modes.  In splice mode the content of every
+ * REAL pipe the code creates is tracked, keyed by the pipe's inode (fstat on whichever end is used):
+ * splice-in appends to the pipe the pump actually holds, splice-out delivers from the head of that
+ * pipe, whatever put those bytes there.  `CONTENT bad` = the bytes delivered to a sink are not the
+ * next bytes of that slot's own source.
  */
 #include <stdio.h>
 #include <stdlib.h>
@@ -14,46 +30,182 @@
 #include <errno.h>
 #include <fcntl.h>
 #include <unistd.h>
+#include <signal.h>
+#include <pthread.h>
 #include <sys/ioctl.h>
 #include <sys/socket.h>
+#include <sys/stat.h>
 #include <sys/syscall.h>
 #include <iv.h>
 #include <iv_fd_pump.h>
 #include <iv_list.h>
 #include <iv_tls.h>
 
-#define FROM_FD 1000
-#define TO_FD   1001
+#define MAXSLOT 32
+#define FROM_FD(s) (1000 + 2 * (s))
+#define TO_FD(s)   (1001 + 2 * (s))
 
 static ssize_t v_read(int fd, void *buf, size_t count);
 static ssize_t v_write(int fd, const void *buf, size_t count);
 static ssize_t v_splice(int fdin, void *offin, int fdout, void *offout, size_t len, unsigned int flags);
 static int v_ioctl(int fd, unsigned long req, int *arg);
 static int v_shutdown(int fd, int how);
+static void *v_malloc(size_t n);
+static void v_free(void *p);
+static int v_close(int fd);
+static long v_syscall(long nr, int *fd, int flags);
+static int v_pipe(int *fd);
 
 #define read v_read
 #define write v_write
 #define splice v_splice
 #define ioctl v_ioctl
 #define shutdown v_shutdown
+#define malloc v_malloc
+#define free v_free
+#define close v_close
+#define syscall v_syscall
+#define pipe v_pipe
 #include PUMP_SRC
 #undef read
 #undef write
 #undef splice
 #undef ioctl
 #undef shutdown
+#undef malloc
+#undef free
+#undef close
+#undef syscall
+#undef pipe
+
+struct slot {
+	struct iv_fd_pump pump;
+	int live, broken;
+	unsigned long uid;		/* serial number of the pump: selects the byte values of its stream */
+	unsigned long src_pos, sink_pos;	/* bytes taken from the source / given to the sink */
+};
+static struct slot slots[MAXSLOT];
+static int cur = -1;			/* slot whose pump call is running */
+static unsigned long next_uid = 1;
 
 #define MAXQ 64
 static char rq[MAXQ][16], wq[MAXQ][16];
 static long fq[MAXQ];
 static int rqn, rqi, wqn, wqi, fqn, fqi;
 static int probe_result;	/* 1: probe says splice works */
-static unsigned long src_pos, sink_pos;	/* bytes taken from the source / given to the sink */
-static unsigned long pipe_in, pipe_out;	/* splice mode: virtual pipe content is source bytes [pipe_out, pipe_in) */
 
-static unsigned char src_byte(unsigned long i)
+static long n_alloc, n_free;	/* malloc/free calls made by iv_fd_pump.c */
+static long fds_open;		/* pipe descriptors created by iv_fd_pump.c and not yet closed */
+
+/* content of the real pipes */
+#define MAXPIPE 256
+struct vpipe {
+	int used, ends;
+	ino_t ino;
+	unsigned char *data;
+	size_t head, len, cap;
+};
+static struct vpipe pipes[MAXPIPE];
+
+static unsigned char src_byte(unsigned long uid, unsigned long i)
 {
-	return (unsigned char)((i * 2654435761UL) >> 13);
+	return (unsigned char)(((i + uid * 1000003UL) * 2654435761UL) >> 13);
+}
+
+static struct vpipe *pipe_of(int fd)
+{
+	struct stat st;
+	int i;
+	if (fd < 0 || fd >= 1000 || fstat(fd, &st) < 0 || !S_ISFIFO(st.st_mode))
+		return NULL;
+	for (i = 0; i < MAXPIPE; i++)
+		if (pipes[i].used && pipes[i].ino == st.st_ino)
+			return &pipes[i];
+	return NULL;
+}
+
+static void pipe_register(int *fd)
+{
+	struct stat st;
+	int i;
+	fds_open += 2;
+	if (fstat(fd[0], &st) < 0)
+		return;
+	for (i = 0; i < MAXPIPE; i++)
+		if (!pipes[i].used) {
+			memset(&pipes[i], 0, sizeof(pipes[i]));
+			pipes[i].used = 1;
+			pipes[i].ends = 2;
+			pipes[i].ino = st.st_ino;
+			return;
+		}
+	printf("HARNESS pipe table full\n");
+}
+
+static void pipe_append(struct vpipe *p, unsigned long uid, unsigned long pos, size_t n)
+{
+	size_t i;
+	if (p->head + p->len + n > p->cap) {
+		if (p->len > 0)
+			memmove(p->data, p->data + p->head, p->len);
+		p->head = 0;
+		if (p->len + n > p->cap) {
+			p->cap = (p->len + n) * 2 + 64;
+			p->data = realloc(p->data, p->cap);
+		}
+	}
+	for (i = 0; i < n; i++)
+		p->data[p->head + p->len + i] = src_byte(uid, pos + i);
+	p->len += n;
+}
+
+static long v_syscall(long nr, int *fd, int flags)
+{
+	int r;
+	if (nr != __NR_pipe2) { printf("HARNESS unexpected syscall %ld\n", nr); errno = ENOSYS; return -1; }
+	r = pipe2(fd, flags);
+	if (r == 0)
+		pipe_register(fd);
+	return r;
+}
+
+static int v_pipe(int *fd)
+{
+	int r = pipe(fd);
+	if (r == 0)
+		pipe_register(fd);
+	return r;
+}
+
+static int v_close(int fd)
+{
+	struct vpipe *p = pipe_of(fd);
+	int r;
+	if (p != NULL && --p->ends == 0) {
+		free(p->data);
+		p->used = 0;
+	}
+	r = close(fd);
+	if (r == 0)
+		fds_open--;
+	else
+		printf("BADFD close %d\n", fd);
+	return r;
+}
+
+static void *v_malloc(size_t n)
+{
+	void *p = malloc(n);
+	if (p != NULL)
+		n_alloc++;
+	return p;
+}
+
+static void v_free(void *p)
+{
+	if (p != NULL)
+		n_free++;
+	free(p);
 }
 
 static int in_result(size_t count, size_t *n)
@@ -74,7 +226,8 @@ static int in_result(size_t count, size_t *n)
 	}
 }
 
-static int out_result(size_t count, size_t *n)
+/* avail: what a successful call can deliver at most (splice mode: what the pipe holds) */
+static int out_result(size_t count, size_t avail, size_t *n)
 {
 	const char *e = (wqi < wqn) ? wq[wqi++] : "a";
 	printf("OUT write %zu\n", count);
@@ -83,6 +236,14 @@ static int out_result(size_t count, size_t *n)
 		*n = strtoul(e + 1, NULL, 10);
 		if (*n < 1) *n = 1;
 		if (*n > count) *n = count;
+		if (avail == 0) {
+			/* splice(pipe -> fd) without SPLICE_F_NONBLOCK on an empty pipe whose write end the caller holds */
+			printf("HANG splice from an empty pipe\n");
+			printf("EV wr eagain\n");
+			errno = EAGAIN;
+			return -1;
+		}
+		if (*n > avail) *n = avail;
 		printf("EV wr n %zu\n", *n);
 		return 0;
 	case 'z': printf("EV wr zero\n"); *n = 0; return 0;
@@ -95,12 +256,14 @@ static int out_result(size_t count, size_t *n)
 static ssize_t v_read(int fd, void *buf, size_t count)
 {
 	size_t n, i;
-	if (fd != FROM_FD) { printf("BADFD read %d\n", fd); return -1; }
+	struct slot *s;
+	if (cur < 0 || fd != FROM_FD(cur)) { printf("BADFD read %d\n", fd); errno = EBADF; return -1; }
+	s = &slots[cur];
 	if (in_result(count, &n) < 0)
 		return -1;
 	for (i = 0; i < n; i++)
-		((unsigned char *)buf)[i] = src_byte(src_pos + i);
-	src_pos += n;
+		((unsigned char *)buf)[i] = src_byte(s->uid, s->src_pos + i);
+	s->src_pos += n;
 	return n;
 }
 
@@ -108,47 +271,74 @@ static ssize_t v_write(int fd, const void *buf, size_t count)
 {
 	size_t n, i;
 	int bad = 0;
-	if (fd != TO_FD) { printf("BADFD write %d\n", fd); return -1; }
-	/* the bytes offered must be the next bytes of the stream, whatever the result will be */
+	struct slot *s;
+	if (cur < 0 || fd != TO_FD(cur)) { printf("BADFD write %d\n", fd); errno = EBADF; return -1; }
+	s = &slots[cur];
+	/* the bytes offered must be the next bytes of this slot's own stream, whatever the result will be */
 	for (i = 0; i < count; i++)
-		if (((const unsigned char *)buf)[i] != src_byte(sink_pos + i)) { bad = 1; break; }
-	if (sink_pos + count > src_pos) bad = 1;
-	if (out_result(count, &n) < 0)
+		if (((const unsigned char *)buf)[i] != src_byte(s->uid, s->sink_pos + i)) { bad = 1; break; }
+	if (s->sink_pos + count > s->src_pos) bad = 1;
+	if (out_result(count, count, &n) < 0)
 		return -1;
-	printf("CONTENT %s\n", bad ? "bad" : "ok");
-	sink_pos += n;
+	if (n > 0)
+		printf("CONTENT %s\n", bad ? "bad" : "ok");
+	s->sink_pos += n;
 	return n;
 }
 
 static ssize_t v_splice(int fdin, void *offin, int fdout, void *offout, size_t len, unsigned int flags)
 {
-	size_t n;
-	if (fdin == FROM_FD) {
+	size_t n, i;
+	struct slot *s;
+	struct vpipe *p;
+	(void)offin; (void)offout; (void)flags;
+	if (fdin < 1000 && fdout < 1000) {
+		/* the availability probe: pipe to pipe */
+		if (probe_result) { errno = EAGAIN; return -1; }
+		errno = EINVAL;
+		return -1;
+	}
+	if (cur >= 0 && fdin == FROM_FD(cur)) {
+		s = &slots[cur];
+		p = pipe_of(fdout);
+		if (p == NULL) { printf("BADFD splice-in to %d\n", fdout); errno = EBADF; return -1; }
 		if (in_result(len, &n) < 0)
 			return -1;
-		src_pos += n;
-		pipe_in += n;
+		pipe_append(p, s->uid, s->src_pos, n);
+		s->src_pos += n;
 		return n;
 	}
-	if (fdout == TO_FD) {
-		int bad = (len != pipe_in - pipe_out) || (pipe_out != sink_pos);
-		if (out_result(len, &n) < 0)
+	if (cur >= 0 && fdout == TO_FD(cur)) {
+		int bad;
+		const char *why = "";
+		s = &slots[cur];
+		p = pipe_of(fdin);
+		if (p == NULL) { printf("BADFD splice-out from %d\n", fdin); errno = EBADF; return -1; }
+		bad = 0;
+		if (len != p->len) { bad = 1; why = " pipe-holds-other-amount-than-the-pump-accounts-for"; }
+		if (out_result(len, p->len, &n) < 0)
 			return -1;
-		printf("CONTENT %s\n", bad ? "bad" : "ok");
-		pipe_out += n;
-		sink_pos += n;
+		if (n > 0) {
+			for (i = 0; i < n; i++)
+				if (p->data[p->head + i] != src_byte(s->uid, s->sink_pos + i)) { bad = 1; why = " foreign-or-reordered-bytes"; break; }
+			if (s->sink_pos + n > s->src_pos) { bad = 1; why = " more-delivered-than-read"; }
+			printf("CONTENT %s%s\n", bad ? "bad" : "ok", why);
+		}
+		p->head += n;
+		p->len -= n;
+		s->sink_pos += n;
 		return n;
 	}
-	/* the availability probe: pipe to pipe */
-	if (probe_result) { errno = EAGAIN; return -1; }
-	errno = EINVAL;
+	printf("BADFD splice %d %d\n", fdin, fdout);
+	errno = EBADF;
 	return -1;
 }
 
 static int v_ioctl(int fd, unsigned long req, int *arg)
 {
 	long v = (fqi < fqn) ? fq[fqi++] : 0;
-	(void)fd; (void)req;
+	(void)req;
+	if (cur < 0 || fd != FROM_FD(cur)) printf("BADFD ioctl %d\n", fd);
 	printf("OUT fionread\n");
 	if (v == -999) {	/* ioctl fails: *arg untouched (the code preset it to 1) */
 		printf("EV fion %d\n", *arg);
@@ -162,33 +352,70 @@ static int v_ioctl(int fd, unsigned long req, int *arg)
 
 static int v_shutdown(int fd, int how)
 {
-	printf("OUT shutdown%s\n", (fd == TO_FD && how == SHUT_WR) ? "" : " BADARGS");
+	printf("OUT shutdown%s\n", (cur >= 0 && fd == TO_FD(cur) && how == SHUT_WR) ? "" : " BADARGS");
 	return 0;
 }
 
 static void set_bands(void *cookie, int pollin, int pollout)
 {
-	(void)cookie;
+	if (cookie != (void *)&slots[cur])
+		printf("OUT BADCOOKIE\n");
 	printf("OUT setBands %d %d\n", !!pollin, !!pollout);
 }
 
-static struct iv_fd_pump pump;
-static int have_pump;
-static int broken;
-
-static void destroy(void)
+static struct iv_fd_pump_thr_info *tinfo(void)
 {
-	if (have_pump) {
-		printf("DESTROY\n");
-		iv_fd_pump_destroy(&pump);
-		printf("ENDDESTROY BUF %d\n", pump.buf != NULL);
-		have_pump = 0;
+	return iv_tls_user_ptr(&iv_fd_pump_tls_user);
+}
+
+/* after every operation: cache length, buffers / pipe descriptors in existence, cumulative malloc/free
+ * counts, and (white-box) how many CACHED pipes still hold bytes */
+static void stat_line(void)
+{
+	struct iv_fd_pump_thr_info *t = tinfo();
+	struct iv_list_head *lh;
+	int dirty = 0;
+	if (splice_available) {
+		for (lh = t->bufs.next; lh != &t->bufs; lh = lh->next) {
+			struct iv_fd_pump_buf *b = iv_container_of(lh, struct iv_fd_pump_buf, list);
+			struct vpipe *p = pipe_of(b->u.pfd[0]);
+			if (p != NULL && p->len > 0)
+				dirty++;
+		}
 	}
+	printf("CACHED %d ALIVE %ld %ld ALLOCS %ld FREES %ld DIRTY %d\n", t->num_bufs, n_alloc - n_free, fds_open, n_alloc, n_free, dirty);
+}
+
+static void destroy(int k)
+{
+	if (slots[k].live) {
+		printf("DESTROY %d\n", k);
+		cur = k;
+		iv_fd_pump_destroy(&slots[k].pump);
+		cur = -1;
+		printf("ENDDESTROY BUF %d\n", slots[k].pump.buf != NULL);
+		slots[k].live = 0;
+		stat_line();
+	}
+}
+
+static void purge(void)
+{
+	/* the thread-deinit hook */
+	iv_fd_pump_tls_deinit_thread(tinfo());
+	printf("PURGE\n");
+	stat_line();
+}
+
+static int is_num(const char *s)
+{
+	return s != NULL && s[0] >= '0' && s[0] <= '9';
 }
 
 int main(void)
 {
 	static char line[8192];
+	int k;
 
 	setvbuf(stdout, NULL, _IOFBF, 1 << 16);
 	alarm(60);	/* watchdog: a library call that does not return ends the run with SIGALRM */
@@ -199,31 +426,52 @@ int main(void)
 		if (op == NULL)
 			continue;
 		if (!strcmp(op, "new")) {
-			char *mode = strtok_r(NULL, " \n", &save);
-			int relay = atoi(strtok_r(NULL, " \n", &save));
-			struct iv_fd_pump_thr_info *tinfo = iv_tls_user_ptr(&iv_fd_pump_tls_user);
-			destroy();
-			buf_purge(tinfo);	/* cached buffers are of the previous mode's kind */
-			if (!strcmp(mode, "0")) splice_available = 0;
-			else if (!strcmp(mode, "1")) splice_available = 1;
-			else { splice_available = -1; probe_result = !strcmp(mode, "probe-ok"); }
-			memset(&pump, 0, sizeof(pump));
-			pump.from_fd = FROM_FD;
-			pump.to_fd = TO_FD;
-			pump.set_bands = set_bands;
-			pump.flags = relay ? IV_FD_PUMP_FLAG_RELAY_EOF : 0;
-			src_pos = sink_pos = pipe_in = pipe_out = 0;
-			printf("NEW relay %d\n", relay);
-			IV_FD_PUMP_INIT(&pump);
-			iv_fd_pump_init(&pump);
+			char *a = strtok_r(NULL, " \n", &save);
+			char *b = strtok_r(NULL, " \n", &save);
+			char *c = strtok_r(NULL, " \n", &save);
+			char *mode;
+			int relay, want;
+			struct slot *s;
+			if (a == NULL || b == NULL) { printf("bad-op\n"); continue; }
+			if (c == NULL) { k = 0; mode = a; relay = atoi(b); }	/* old form */
+			else { k = atoi(a); mode = b; relay = atoi(c); }
+			if (k < 0 || k >= MAXSLOT) { printf("bad-op\n"); continue; }
+			destroy(k);
+			want = !strcmp(mode, "0") ? 0 : !strcmp(mode, "1") ? 1 : -1;
+			if (want == -1 || want != splice_available) {
+				int j;
+				for (j = 0; j < MAXSLOT; j++)
+					destroy(j);
+				purge();
+				splice_available = want;
+				printf("MODE %d\n", want);
+			}
+			probe_result = !strcmp(mode, "probe-ok");
+			s = &slots[k];
+			memset(s, 0, sizeof(*s));
+			s->uid = next_uid++;
+			s->pump.from_fd = FROM_FD(k);
+			s->pump.to_fd = TO_FD(k);
+			s->pump.cookie = s;
+			s->pump.set_bands = set_bands;
+			s->pump.flags = relay ? IV_FD_PUMP_FLAG_RELAY_EOF : 0;
+			printf("NEW %d relay %d probe %d\n", k, relay, probe_result);
+			cur = k;
+			IV_FD_PUMP_INIT(&s->pump);
+			iv_fd_pump_init(&s->pump);
+			cur = -1;
 			printf("ENDNEW splice %d\n", splice_available);
-			have_pump = 1;
-			broken = 0;
+			s->live = 1;
+			stat_line();
 		} else if (!strcmp(op, "pump")) {
 			char *tok;
-			int which = 0, r;
+			int which = 0, r, first = 1;
+			struct slot *s;
+			k = 0;
 			rqn = rqi = wqn = wqi = fqn = fqi = 0;
 			while ((tok = strtok_r(NULL, " \n", &save)) != NULL) {
+				if (first && is_num(tok)) { k = atoi(tok); first = 0; continue; }
+				first = 0;
 				if (!strcmp(tok, "R")) which = 0;
 				else if (!strcmp(tok, "W")) which = 1;
 				else if (!strcmp(tok, "F")) which = 2;
@@ -231,27 +479,38 @@ int main(void)
 				else if (which == 1 && wqn < MAXQ) snprintf(wq[wqn++], 16, "%s", tok);
 				else if (which == 2 && fqn < MAXQ) fq[fqn++] = atol(tok);
 			}
-			if (broken) {	/* after -1 the only valid call is destroy */
+			if (k < 0 || k >= MAXSLOT) { printf("bad-op\n"); continue; }
+			s = &slots[k];
+			if (!s->live || s->broken) {	/* after -1 the only valid call is destroy */
 				printf("SKIP\n");
 				continue;
 			}
-			printf("PUMP\n");
-			r = iv_fd_pump_pump(&pump);
+			printf("PUMP %d\n", k);
+			cur = k;
+			r = iv_fd_pump_pump(&s->pump);
+			cur = -1;
 			if (r < 0)
-				broken = 1;
-			printf("RET %d BUF %d DONE %d\n", r, pump.buf != NULL, iv_fd_pump_is_done(&pump));
+				s->broken = 1;
+			printf("RET %d BUF %d DONE %d\n", r, s->pump.buf != NULL, iv_fd_pump_is_done(&s->pump));
+			stat_line();
 		} else if (!strcmp(op, "destroy")) {
-			destroy();
+			char *a = strtok_r(NULL, " \n", &save);
+			k = is_num(a) ? atoi(a) : 0;
+			if (k < 0 || k >= MAXSLOT) { printf("bad-op\n"); continue; }
+			if (slots[k].live)
+				destroy(k);
+			else
+				printf("SKIP\n");
+		} else if (!strcmp(op, "deinit-purge")) {
+			purge();
 		} else {
 			printf("bad-op\n");
 		}
 	}
-	destroy();
-	{
-		struct iv_fd_pump_thr_info *tinfo = iv_tls_user_ptr(&iv_fd_pump_tls_user);
-		printf("CACHED %d\n", tinfo->num_bufs);
-	}
+	for (k = 0; k < MAXSLOT; k++)
+		destroy(k);
 	iv_deinit();
+	printf("FINAL ALIVE %ld %ld\n", n_alloc - n_free, fds_open);
 	fflush(stdout);
 	return 0;
 }
